@@ -65,12 +65,12 @@ def run(ctx):
     # 2. states reached by real operations (deterministic sweep)
     tr = ctx.path("small.ndjson")
     ctx.run_bin("c09", ["small", "--out", tr])
-    judge(ctx, "small", tr, 1, stats)
+    poslib.stage(ctx, judge, ctx, "small", tr, 1, stats)
     # 3. random operation sequences at Unit = 100
     n = 4000 if ctx.quick else 60000
     tr = ctx.path("random.ndjson")
     ctx.run_bin("c09", ["random", "--seed", ctx.seed, "--n", n, "--decimals", 2, "--out", tr])
-    judge(ctx, "random", tr, 2, stats)
+    poslib.stage(ctx, judge, ctx, "random", tr, 2, stats)
 
     # vacuity: every monitor's antecedent must have been true on real-code events
     need = {"IncreaseHealthy": stats[("increase", "open")],
@@ -78,7 +78,7 @@ def run(ctx):
             "Liquidation": stats[("liquidate", "removed")],
             "Adl": stats[("adl", "open")] + stats[("adl", "removed")]}
     for mon, cnt in need.items():
-        if cnt == 0:
+        if cnt == 0 and not ctx.violations:
             raise vlib.ToolError("vacuity: the antecedent of monitor %s was never true on the validated traces" % mon)
     ctx.assumptions += [
         "the ADL guards and the 'liquidation must be a full close' guard live in programs/store/src/ops/order.rs; "
